@@ -667,6 +667,21 @@ class Fn:
                 raise Unsupported("append of a %s" % ta)
             return self.bind(name, "(%s ++ [%s])" % (self.env[name][0], a), "list str", rest)
         if isinstance(st, ast.Assign) and len(st.targets) == 1 and isinstance(st.targets[0], ast.Name) \
+                and isinstance(st.value, ast.Call) and dotted(st.value.func) in self.spec.get("eff_calls", {}) and not st.value.keywords:
+            # x = <declared call that answers a value AND changes declared state>:   let '(x, state') := f args state
+            ec = self.spec["eff_calls"][dotted(st.value.func)]
+            args = [self.expr(a) for a in st.value.args]
+            if len(args) != len(ec["args"]):
+                raise Unsupported("call %s with %d arguments" % (dotted(st.value.func), len(args)))
+            args = [self.coerce(a, t, w) for (a, t), w in zip(args, ec["args"])]
+            call = " ".join([self.subst(ec["fn"])] + args)
+            x = self.new(st.targets[0].id + "_")
+            names = [self.new(self.spec["state_names"][p]) for p in ec["updates"]]
+            self.env[st.targets[0].id] = (x, ec["ret"])
+            for p, n in zip(ec["updates"], names):
+                self.state[p] = (n, self.state[p][1])
+            return "(let '(%s, %s) := %s in %s)" % (x, ", ".join(names), call, self.block(rest))
+        if isinstance(st, ast.Assign) and len(st.targets) == 1 and isinstance(st.targets[0], ast.Name) \
                 and isinstance(st.value, ast.Call) and dotted(st.value.func) in self.stmt_calls:
             # x = <declared effectful call>: the effect is translated, the handle it returns carries no modelled information
             self.env[st.targets[0].id] = ("tt", "unit")
@@ -1046,6 +1061,26 @@ SPECS = [
          env={"new_config": ("new_config", "cfg")},
          state={"installed": ("installed", "cfg")}, state_names={"installed": "installed"},
          stmt_calls={"self._handler.new_config": dict(fn="gen_handler_new_config {installed}", updates=["installed"], args=["cfg"])}),
+    # ---- the traversal: the work-list loop and what it does with one node (C05)
+    dict(group="Collect", name="gen_bfs_iter", path="processor/bfs/__init__.py", cls=None, func="breadth_first_search",
+         params="{N S : Type} (consumer : N -> list N -> S -> (list N * S) * bool) (children_of : N -> list N) (queue : list N) (s : S)",
+         ret="wl_result N S", args=["node", "consumer"],
+         worklist=dict(queue="queue", start="node", consumer="consumer", children_attr="children")),
+    dict(group="Collect", name="gen_search_function", path="processor/variable_set_processor.py", cls="VariableSetProcessor", func="search_function",
+         params="{N V R S : Type} (budget_ok : S -> bool) (value_of : N -> option V) (depth_of : N -> nat) "
+                "(process : V -> S -> (R * bool) * S) (attach_to_parent : N -> R -> S -> S) (child_nodes : R -> V -> nat -> list N) "
+                "(add_children : list N -> nat -> list N -> list N) (node : N) (children : list N) (s : S)",
+         ret="(list N * S) * bool", args=["self", "node"],
+         env={"self": ("tt", "unit"), "node": ("node", "N"), "node.value": ("(value_of node)", "option V"), "node.depth": ("(depth_of node)", "nat"),
+              "process_result.variable_id": ("(fst {process_result})", "R"), "process_result.process_children": ("(snd {process_result})", "bool"),
+              "var_id.vid": ("{var_id}", "R"), "node_value.value": ("{node_value}", "V")},
+         state={"node.children": ("children", "list N"), "<collector>": ("s", "S")},
+         state_names={"node.children": "children", "<collector>": "s"},
+         calls={"self.check_var_count": ("budget_ok {<collector>}", [], "bool"),
+                "process_child_nodes": ("(fun _ : unit => child_nodes)", ["unit", "R", "V", "nat"], "list N")},
+         eff_calls={"process_variable": dict(fn="(fun (_ : unit) v_ => process v_ {<collector>})", args=["unit", "V"], ret="(R * bool)", updates=["<collector>"])},
+         stmt_calls={"node.parent.add_child": dict(fn="(fun r_ => attach_to_parent node r_ {<collector>})", updates=["<collector>"], args=["R"]),
+                     "node.add_children": dict(fn="add_children {node.children} (depth_of node)", updates=["node.children"], args=["list N"])}),
     # ---- the bounded attribute store (C18)
     dict(group="Store", name="gen_setitem", path="api/attributes/__init__.py", cls="BoundedAttributes", func="__setitem__",
          params="(cap vlimit : option Z) (immutable : bool) (items : list (str * cval)) (dropped : Z) (key : str) (value : val)",
@@ -1204,13 +1239,141 @@ def translate_pop_loop(spec, fdef):
     return go(list(w.body[1:]), False), fn
 
 
+def translate_worklist(spec, fdef):
+    """A work-list loop of the shape
+           <queue> = [<start>]
+           while len(<queue>) != 0:
+               <x> = <queue>.pop(0)            (or .pop(): the other end)
+               <c> = <consumer>(<x>)           (the consumer may add to <x>.children and changes the collector's state)
+               if <c>: <queue> += <x>.children   else: return
+       is translated as ONE ITERATION: a function of the list and the state to WEnd state | WGo list' state'
+       (PureSupport.wl_run is the loop over it), plus the initial list as a function of the start node."""
+    wl = spec["worklist"]
+    q, consumer = wl["queue"], wl["consumer"]
+    body = [b for b in fdef.body if not (isinstance(b, ast.Expr) and isinstance(b.value, ast.Constant))]
+    if len(body) != 2 or not isinstance(body[1], ast.While) or body[1].orelse:
+        raise Unsupported("expected `%s = [...]` followed by one while loop and nothing else" % q)
+    a = body[0]
+    if not (isinstance(a, ast.Assign) and len(a.targets) == 1 and dotted(a.targets[0]) == q and isinstance(a.value, ast.List)
+            and all(dotted(e) == wl["start"] for e in a.value.elts)):
+        raise Unsupported("the list is not initialised as a list of the start node")
+    start = "[" + "; ".join("node" for _ in a.value.elts) + "]"
+    w = body[1]
+    t = w.test
+
+    def len_of_queue(n):
+        return isinstance(n, ast.Call) and dotted(n.func) == "len" and len(n.args) == 1 and dotted(n.args[0]) == q and not n.keywords
+    if isinstance(t, ast.Compare) and len(t.ops) == 1 and len_of_queue(t.left) and isinstance(t.comparators[0], ast.Constant) \
+            and t.comparators[0].value == 0 and isinstance(t.ops[0], (ast.NotEq, ast.Gt)):
+        test = "(negb (Nat.eqb (length queue) 0))"
+    elif isinstance(t, ast.Compare) and len(t.ops) == 1 and len_of_queue(t.left) and isinstance(t.comparators[0], ast.Constant) \
+            and type(t.comparators[0].value) is int and isinstance(t.ops[0], (ast.Gt, ast.GtE, ast.NotEq)):
+        op = {ast.Gt: "Nat.ltb %d (length queue)", ast.GtE: "Nat.leb %d (length queue)", ast.NotEq: "negb (Nat.eqb (length queue) %d)"}[type(t.ops[0])]
+        test = "(" + op % t.comparators[0].value + ")"
+    elif dotted(t) == q:
+        test = "(negb (Nat.eqb (length queue) 0))"
+    else:
+        raise Unsupported("loop test")
+    fresh = [0]
+
+    def new(base):
+        fresh[0] += 1
+        return "%s%d" % (base, fresh[0])
+
+    def children_term(node, env):
+        pat = dotted(node)
+        if pat and pat.endswith("." + wl["children_attr"]) and pat[:-len(wl["children_attr"]) - 1] in env["nodes"]:
+            return env["nodes"][pat[:-len(wl["children_attr"]) - 1]][1]
+        return None
+
+    def go(stmts, env):
+        if not stmts:
+            return "(WGo %s %s)" % (env["q"], env["s"])
+        st, rest = stmts[0], stmts[1:]
+        if isinstance(st, ast.Expr) and isinstance(st.value, ast.Constant):
+            return go(rest, env)
+        if isinstance(st, ast.Expr) and isinstance(st.value, ast.Call) and (dotted(st.value.func) or "").startswith("logging."):
+            return go(rest, env)
+        if isinstance(st, (ast.Return, ast.Break)):
+            if isinstance(st, ast.Return) and st.value is not None and not (isinstance(st.value, ast.Constant) and st.value.value is None):
+                raise Unsupported("the loop returns a value")
+            return "(WEnd %s)" % env["s"]
+        if isinstance(st, ast.Continue):
+            return "(WGo %s %s)" % (env["q"], env["s"])
+        if isinstance(st, ast.Assign) and len(st.targets) == 1 and isinstance(st.targets[0], ast.Name) and isinstance(st.value, ast.Call):
+            name, call = st.targets[0].id, st.value
+            pat = dotted(call.func)
+            if pat == q + ".pop" and not call.keywords and len(call.args) <= 1:
+                if not call.args or (isinstance(call.args[0], ast.UnaryOp) and isinstance(call.args[0].op, ast.USub)
+                                     and isinstance(call.args[0].operand, ast.Constant) and call.args[0].operand.value == 1):
+                    popper = "py_pop_last"
+                elif isinstance(call.args[0], ast.Constant) and call.args[0].value == 0 and type(call.args[0].value) is int:
+                    popper = "py_pop_first"
+                else:
+                    raise Unsupported("pop at another index")
+                x, q1 = new(name + "_"), new("queue_")
+                env2 = dict(env, q=q1, nodes=dict(env["nodes"]))
+                env2["nodes"][name] = (x, "(children_of %s)" % x)
+                return "(match %s %s with None => (WEnd %s) | Some (%s, %s) => %s end)" % (popper, env["q"], env["s"], x, q1, go(rest, env2))
+            if pat == consumer and len(call.args) == 1 and not call.keywords and dotted(call.args[0]) in env["nodes"]:
+                target = dotted(call.args[0])
+                x, ch_before = env["nodes"][target]
+                ch, s1, c1 = new("children_"), new("s_"), new(name + "_")
+                env2 = dict(env, s=s1, nodes=dict(env["nodes"]), bools=dict(env["bools"]))
+                env2["nodes"][target] = (x, ch)
+                env2["bools"][name] = c1
+                return "(let '((%s, %s), %s) := consumer %s %s %s in %s)" % (ch, s1, c1, x, ch_before, env["s"], go(rest, env2))
+            raise Unsupported("call %s in the loop" % pat)
+        if isinstance(st, ast.If):
+            tt = st.test
+            neg = False
+            if isinstance(tt, ast.UnaryOp) and isinstance(tt.op, ast.Not):
+                neg, tt = True, tt.operand
+            if not (isinstance(tt, ast.Name) and tt.id in env["bools"]):
+                raise Unsupported("loop condition on something else than the consumer's answer")
+            a_ = go(list(st.body) + list(rest), env)
+            b_ = go(list(st.orelse) + list(rest), env)
+            if neg:
+                a_, b_ = b_, a_
+            return "(if %s then %s else %s)" % (env["bools"][tt.id], a_, b_)
+        new_q = None
+        if isinstance(st, ast.AugAssign) and isinstance(st.op, ast.Add) and dotted(st.target) == q:
+            ch = children_term(st.value, env)
+            if ch is not None:
+                new_q = "(%s ++ %s)" % (env["q"], ch)
+        if isinstance(st, ast.Expr) and isinstance(st.value, ast.Call) and dotted(st.value.func) == q + ".extend" and len(st.value.args) == 1:
+            ch = children_term(st.value.args[0], env)
+            if ch is not None:
+                new_q = "(%s ++ %s)" % (env["q"], ch)
+        if isinstance(st, ast.Assign) and len(st.targets) == 1 and dotted(st.targets[0]) == q and isinstance(st.value, ast.BinOp) \
+                and isinstance(st.value.op, ast.Add):
+            l_, r_ = st.value.left, st.value.right
+            if dotted(l_) == q and children_term(r_, env) is not None:
+                new_q = "(%s ++ %s)" % (env["q"], children_term(r_, env))
+            elif dotted(r_) == q and children_term(l_, env) is not None:
+                new_q = "(%s ++ %s)" % (children_term(l_, env), env["q"])
+        if new_q is not None:
+            q1 = new("queue_")
+            return "(let %s := %s in %s)" % (q1, new_q, go(rest, dict(env, q=q1)))
+        raise Unsupported("statement %s in the loop" % type(st).__name__)
+    it = go(list(w.body), dict(q="queue", s="s", nodes={}, bools={}))
+    fn = Fn(spec)
+    fn.notes.append("the consumer is handed the node, the children the node already has and the collector's state; it answers "
+                    "(the node's children afterwards, the state afterwards, whether to go on)")
+    extra = "Definition %s_start {N : Type} (node : N) : list N := %s.\n\n" % (spec["name"], start)
+    return "(if %s then %s else (WEnd s))" % (test, it), fn, extra
+
+
 def translate(spec):
     fdef = find(spec["path"], spec["cls"], spec["func"])
     got_args = [a.arg for a in fdef.args.args]
     if got_args != spec["args"] or fdef.args.vararg or fdef.args.kwarg or fdef.args.kwonlyargs:
         raise Unsupported("parameters of %s are %s, expected %s" % (spec["func"], got_args, spec["args"]))
+    extra = ""
     if "loop" in spec:
         body, fn = translate_pop_loop(spec, fdef)
+    elif "worklist" in spec:
+        body, fn, extra = translate_worklist(spec, fdef)
     else:
         fn = Fn(spec)
         body = fn.block(list(fdef.body))
@@ -1220,6 +1383,7 @@ def translate(spec):
     for n in sorted(set(fn.notes)):
         text += "(* note: %s *)\n" % n
     text += "Definition %s %s : %s :=\n  %s.\n\n" % (spec["name"], spec["params"], spec["ret"], body)
+    text += extra
     declared = {k: v[1] for k, v in spec.get("env", {}).items()}
     declared.update({k: v[1] for k, v in spec.get("state", {}).items()})
     declared.update({k + "()": "%s -> %s" % (", ".join(v[1]) or "()", v[2]) for k, v in spec.get("calls", {}).items()})
